@@ -31,13 +31,21 @@ def run(rep: Report, ctx: Any) -> str:
                       "stored key")
     f = ix.func("EnumProperty.values_from_list")
     cfg = CFG(f.node)
-    stores = [s for s in _registry_stores(f, {"output"})]
-    tests = _membership_tests(f, "output")
+    # the member table (any spelling) is the local dict the function returns
+    from ..astutil import anon, local_names
+    from .registries import FROZEN, local_registries, registry_label
+
+    locs = local_registries(f)
+    returned = {norm(r.value) for r in ast.walk(f.node) if isinstance(r, ast.Return) and r.value is not None} & set(locs)
+    rep.require(len(returned) == 1, "the returned member table of values_from_list")
+    table = next(iter(returned))
+    stores = [s for s in _registry_stores(f, {table})]
+    tests = _membership_tests(f, table)
     rep.floor("member_stores", len(stores), 3)
-    from .registries import FROZEN
+    lnames = local_names(f.node)
 
     for st, reg, key, kind in stores:
-        ckey = f"{short(f)}::{reg}[{norm(key)}]"
+        ckey = f"{short(f)}::{registry_label(reg, locs)}[{anon(key, lnames)}]"
         if ckey in FROZEN:
             rep.ok("R14.2", ckey, "frozen", FROZEN[ckey], nontrivial=False)
             continue
